@@ -53,6 +53,32 @@ package eth2wrap
 //@ loop 1 invariant ncalls(fork) == atentry(ncalls(fork)) + $i && roundForks == $i
 //@ loop 2 invariant roundForks == atentry(roundForks)
 
+// submit is provide with the result dropped: the same primaries, fallbacks and selector, one provide round, and the
+// work function runs only inside it (so the fallback decision of provide applies to every submission).
+//@ func submit
+//@ props C19
+//@ callreq provide: a1 == ctx && a2 == clients && a3 == fallbacks && a6 == selector
+//@ ensures ncalls(provide) == 1 && ncalls(work) == 0
+
+//@ func submit$1
+//@ props C19
+//@ callreq work: a1 == ctx && a2 == args
+//@ ensures ncalls(work) == 1
+
+// Every method of the multi client goes through exactly one provide/submit round over the configured primaries and
+// the configured fallbacks (one contract instance per method: 45 methods in multi.go and the generated file).
+//@ func (m multi) *
+//@ props C19
+//@ callreq provide: a1 == ctx && a2 == m.clients && a3 == m.fallbacks
+//@ callreq submit: a1 == ctx && a2 == m.clients && a3 == m.fallbacks
+//@ ensures ncalls(provide) + ncalls(submit) == 1
+
+// Proxy may fail reading the request body before any node is contacted.
+//@ func (m multi) Proxy
+//@ props C19
+//@ callreq provide: a1 == ctx && a2 == m.clients && a3 == m.fallbacks
+//@ ensures ncalls(provide) <= 1
+
 // ---- C20: duties cache -----------------------------------------------------------------------
 
 //@ func slices.Contains
